@@ -48,6 +48,7 @@ type Facts struct {
 	Globals   []GlobalVar           `json:"globals"`
 	Callers   map[string][]string   `json:"callers_of_mutators"` // mutator function -> functions that call it
 	GoStmts   []string              `json:"go_statements"`       // `go` statements / sync.Pool uses in non-test code
+	PrimDefs  map[string]string     `json:"prim_defs"`           // template translation of each codec primitive (CodecProg.PrimDef)
 	ProtoDSL  map[string]string     `json:"proto_dsl"`           // <module>/Makefile: PROTO_DSL (which protocol definition the generated code claims)
 }
 
@@ -245,6 +246,11 @@ func extractFacts(root string) *Facts {
 		for _, k := range gl {
 			fx.Globals = append(fx.Globals, *globals[k])
 		}
+	}
+	fx.PrimDefs = map[string]string{}
+	defs, _ := primDefs(root)
+	for i, n := range primNames {
+		fx.PrimDefs[n] = defs[i]
 	}
 	fx.ProtoDSL = map[string]string{}
 	mks, _ := filepath.Glob(filepath.Join(root, "*", "Makefile"))
